@@ -7,6 +7,7 @@ sink. For each one the extractor produces, in source order, its *events*:
 each with its *context*: the chain of enclosing loops (`star`, with the normal form of the iterated collection and any
 adapters) and branches (`alt`, with the normal form of the condition and the branch taken).
 Anything that writes through a construct outside the recognised idioms raises `Unrecognised` (rules report it)."""
+import re
 from . import hir as H
 from .hir import Unrecognised
 
@@ -558,6 +559,15 @@ class NF:
             return ("ifelse", cond, a, b)
         if k == "Match":
             scrut = self.nf(e["scrut"], env)
+            live_arms = [a for a in e["arms"] if not _diverges(a["body"])]
+            if live_arms and len(live_arms) < len(e["arms"]):
+                # arms that leave the function (`X => return ..`) produce no value: the value is that of the arms that stay (the rest
+                # of the block runs on those arms only, see diverging_match_conditions)
+                if len(live_arms) == 1 and not live_arms[0].get("guard"):
+                    env_a = env.child()
+                    bind_pattern(live_arms[0]["pat"], scrut, env_a)
+                    return self.nf(live_arms[0]["body"], env_a)
+                e = dict(e, arms=live_arms)
             arms = []
             for a in e["arms"]:
                 env_a = env.child()
@@ -615,6 +625,8 @@ class NF:
                 short = (f.get("path") or "?").rsplit("::", 1)[-1]
                 if short in ("Some", "Ok") and len(args) == 1:
                     return ("call", short, args)
+                if "Struct" in f.get("dk", "") and self.F.lib.body(f.get("path") or "") is None and not (f.get("path") or "").startswith(("std::", "core::", "alloc::")):
+                    return ("call", "ctor:" + (f.get("path") or "?"), args)   # a tuple struct of the crate: `Wrapper(x)`
             targs = tuple(g for g in (f.get("gargs") or []) if g in NUMERIC_TYPES)
             if targs and len(targs) == len(f.get("gargs") or []):
                 return ("call", path, args, ("targs", targs))   # explicit numeric type arguments (`parse_facet::<i32>(..)`)
@@ -688,6 +700,14 @@ class NF:
             return
         v = self.nf(init, env)
         pat = s["pat"]
+        i0 = H.strip(init)
+        if pat.get("k") == "Binding" and i0.get("k") == "MethodCall" and i0["name"] == "to_string" and not i0["args"]:
+            # `let text = value.to_string();`: a later `{text}` shows `value` with its Display, whose type is what matters
+            rty = (H.strip(i0["recv"]).get("ty") or "")
+            if rty and "str" not in rty.replace("&", "").strip().lower()[:6] and "String" not in rty:
+                if not hasattr(self, "_shown_ty"):
+                    self._shown_ty = {}
+                self._shown_ty[pat["id"]] = rty
         if pat.get("k") == "Binding" and "Mut" in pat.get("mode", "") and rest is not None:
             muts = self._mutations(pat["id"], rest)
             if muts:
@@ -936,7 +956,10 @@ class NF:
                     else:
                         parts.append(("lit", v[1]))
                     continue
-                parts.append(("hole", v, h["trait"], (a.get("ty") or "?")))
+                hty = a.get("ty") or "?"
+                if a.get("k") == "Path" and a.get("res") == "local" and a.get("id") in getattr(self, "_shown_ty", {}) and h["trait"] == "display":
+                    hty = self._shown_ty[a["id"]]
+                parts.append(("hole", v, h["trait"], hty))
         merged = []
         for p in parts:
             if p[0] == "lit" and merged and merged[-1][0] == "lit":
@@ -1479,7 +1502,9 @@ class Extractor:
                     how_let = "dropped" if pat.get("k") == "Wild" else "bound"
                     self._visit(fn, init, env2, cur_ctx, out, how_let)
                 rest = stmts[si + 1:] + ([{"k": "Expr", "e": b["tail"]}] if b.get("tail") else [])
+                dmc = diverging_match_conditions(self.NF, init, env2) if init is not None else []
                 self.NF.bind_let(s, env2, rest)
+                cur_ctx = cur_ctx + tuple(("alt", c, br) for c, br in dmc)
                 if s.get("els") is not None:
                     # `let PAT = init else { return .. }` : the rest of the block runs under "init is PAT"
                     rv = _returned_value({"k": "Block", "b": s["els"]})
@@ -1541,6 +1566,25 @@ def diverge_condition(N, e, env, depth=0):
     if sub is None:
         return None
     return ("binop", "And", cond, sub)
+
+
+def diverging_match_conditions(N, init, env):
+    """`let x = match s { A(..) => return .., B => continue, C(v) => v };`: the conditions [(cond, branch)] under which the rest of
+    the block runs (not on the arms that leave); [] when `init` is not such a match"""
+    e = H.strip(init) if isinstance(init, dict) else None
+    if not e or e.get("k") != "Match":
+        return []
+    div = [a for a in e["arms"] if _diverges(a["body"])]
+    live = [a for a in e["arms"] if not _diverges(a["body"])]
+    if not div or not live:
+        return []
+    scrut = N.nf(e["scrut"], env)
+    specific = [a for a in div if H.strip(a["pat"]).get("k") != "Wild" and not a.get("guard")]
+    if len(specific) == len(div):
+        return [(("islet", pat_label(a["pat"]), scrut), False) for a in div]
+    if len(live) == 1 and not live[0].get("guard"):
+        return [(("islet", pat_label(live[0]["pat"]), scrut), True)]
+    return [(("unknown", "match with diverging arms"), True)]
 
 
 def _diverges(e):
@@ -1738,7 +1782,9 @@ class EnvWalker:
                 if s.get("init") is not None:
                     self._w(s["init"], env2, cb, cur)
                 rest = stmts[i + 1:] + ([{"k": "Expr", "e": b["tail"]}] if b.get("tail") else [])
+                dmc = diverging_match_conditions(self.NF, s["init"], env2) if s.get("init") is not None else []
                 self.NF.bind_let(s, env2, rest)
+                cur = cur + tuple(("alt", c, br) for c, br in dmc)
                 if s.get("els") is not None:
                     self._block(s["els"], env2, cb, cur)
                     base = self.NF.nf(s["init"], env2)
@@ -1766,6 +1812,8 @@ def nf_simplify(n):
                     return fi[2]
         if base[0] == "tuple" and str(n[2]).isdigit() and int(n[2]) < len(base[1]):
             return base[1][int(n[2])]
+        if base[0] == "call" and isinstance(base[1], str) and base[1].startswith("ctor:") and str(n[2]).isdigit() and int(n[2]) < len(base[2]):
+            return base[2][int(n[2])]     # `Wrapper(x).0`
     return n
 
 
@@ -1919,6 +1967,136 @@ class CallExpander:
             if c["path"] == path and isinstance(c.get("value"), str):
                 return c["value"]
         return None
+
+    def display_summary(self, ty):
+        """The text that `Display::fmt` of a struct of the crate writes, as a normal form over ("param", "self"): straight `write!`s
+        into the formatter and loops with a separator (`sep = ""; for x in &self.0 { write!(f, "{sep}{x}")?; sep = ", "; }`, or
+        `if i > 0`). None for anything else (enums that match on self, formatter flags, early returns)."""
+        base = re.sub(r"<.*$", "", (ty or "").replace("&", "").replace("mut ", "").strip())
+        if not base or "::" not in base or base.startswith(("std::", "core::", "alloc::")):
+            return None
+        key = "display:" + base
+        if key in self.cache:
+            return self.cache[key]
+        self.cache[key] = None
+        cands = [b for b in self.F.lib.bodies if b["path"].startswith("<" + base) and b["path"].endswith(" as std::fmt::Display>::fmt") and b.get("hir") is not None]
+        if len(cands) != 1:
+            return None
+        try:
+            nb = H.norm_body(cands[0])
+        except Unrecognised:
+            return None
+        if len(nb["params"]) != 2:
+            return None
+        N = self.NF
+        env = Env()
+        for i, _nm in H.pat_bindings(nb["params"][0]):
+            env.m[i] = ("param", "self")
+        fids = {i for i, _nm in H.pat_bindings(nb["params"][1])}
+
+        def is_f(x):
+            x = H.strip(x)
+            while x.get("k") == "AddrOf" or (x.get("k") == "Unary" and x.get("op") == "Deref"):
+                x = H.strip(x["e"])
+            return x.get("k") == "Path" and x.get("res") == "local" and x.get("id") in fids
+        seps = {}      # local id -> its literal text before the first iteration
+
+        def write_parts(x, en):
+            """parts written by the statement x into the formatter, or None"""
+            x = H.strip(x)
+            while x.get("k") == "Try":
+                x = H.strip(x["e"])
+            if x.get("k") == "MethodCall" and x["name"] == "write_fmt" and is_f(x["recv"]):
+                return list(N.format_nf(x["args"][0], en)[1])
+            if x.get("k") == "MethodCall" and x["name"] == "write_str" and is_f(x["recv"]) and len(x["args"]) == 1:
+                v = N.nf(x["args"][0], en)
+                return [("lit", v[1])] if v[0] == "lit" and isinstance(v[1], str) else [("hole", v, "display", "&str")]
+            return None
+
+        def stmts_of(block):
+            b = block["b"]
+            return list(b["stmts"]) + ([{"k": "Expr", "e": b["tail"]}] if b.get("tail") else [])
+        top = H.strip(nb["value"])
+        if top.get("k") != "Block":
+            return None
+        parts = []
+        for st in stmts_of(top):
+            k = st.get("k")
+            if k == "Let":
+                init = H.strip(st["init"]) if st.get("init") else None
+                if st["pat"].get("k") == "Binding" and init is not None and init.get("k") == "Lit" and init.get("lit") == "str":
+                    seps[st["pat"]["id"]] = init["v"]
+                    env.m[st["pat"]["id"]] = ("sepvar", st["pat"]["id"])
+                else:
+                    N.bind_let(st, env)
+                continue
+            if k not in ("Semi", "Expr"):
+                return None
+            x = H.strip(st["e"])
+            if x.get("k") == "Call" and (H.callee_path(x) or "").rsplit("::", 1)[-1] == "Ok":
+                continue    # the final Ok(())
+            wp = write_parts(x, env)
+            if wp is not None:
+                for q in wp:
+                    if q[0] == "hole" and isinstance(q[1], tuple) and q[1][0] == "sepvar":
+                        parts.append(("lit", seps.get(q[1][1], "")))
+                    else:
+                        parts.append(q)
+                continue
+            while x.get("k") == "Try":
+                x = H.strip(x["e"])
+            if x.get("k") == "For":
+                it = N.nf(x["iter"], env)
+                src, val, conds = iter_view(it)
+                if conds:
+                    return None
+                env3 = env.child()
+                bind_pattern(x["pat"], val, env3)
+                body = H.strip(x["body"])
+                if body.get("k") != "Block":
+                    return None
+                pieces, sep, sep_id = [], "", None
+                for y in stmts_of(body):
+                    if y.get("k") == "Let":
+                        N.bind_let(y, env3)
+                        continue
+                    ye = H.strip(y.get("e")) if y.get("k") in ("Semi", "Expr") else None
+                    if ye is None:
+                        return None
+                    if ye.get("k") == "Assign":
+                        tgt, val_ = H.strip(ye["a"]), H.strip(ye["b"])
+                        if tgt.get("k") == "Path" and tgt.get("id") in seps and val_.get("k") == "Lit" and val_.get("lit") == "str" and seps[tgt["id"]] == "":
+                            sep, sep_id = val_["v"], tgt["id"]
+                            continue
+                        return None
+                    wp = write_parts(ye, env3)
+                    if wp is None:
+                        return None
+                    pieces += wp
+                # the separator variable, if any, is the first thing each iteration writes
+                if pieces and pieces[0][0] == "hole" and isinstance(pieces[0][1], tuple) and pieces[0][1][0] == "sepvar":
+                    if pieces[0][1][1] != sep_id:
+                        return None
+                    pieces = pieces[1:]
+                elif sep_id is not None:
+                    return None
+                if any(q[0] == "hole" and isinstance(q[1], tuple) and q[1][0] == "sepvar" for q in pieces):
+                    return None
+                body_nf = ("format", tuple(pieces)) if not (len(pieces) == 1 and pieces[0][0] == "hole") else pieces[0][1]
+                parts.append(("hole", ("joinmap", src, body_nf, sep), "display", "?"))
+                continue
+            return None
+        merged = []
+        for q in parts:
+            if q[0] == "lit" and merged and merged[-1][0] == "lit":
+                merged[-1] = ("lit", merged[-1][1] + q[1])
+            else:
+                merged.append(q)
+        v = ("format", tuple(merged)) if not (len(merged) == 1 and merged[0][0] == "hole") else merged[0][1]
+        if any(r[0] in ("unknown", "local") for r in nf_roots(v)):
+            return None
+        self.cache[key] = v
+        return v
 
     def summary(self, path):
         if path in self.cache:
@@ -2085,6 +2263,13 @@ def _canon_hole(p, CE, limit):
     if tr != "display" or not isinstance(nf, tuple):
         return [([p], ())]
     e = CE.expand(nf) if CE is not None else nf
+    if CE is not None and ty and "::" in ty:
+        # a value of a struct of the crate shown with its own Display: what that Display writes, with the value for `self`
+        ds = CE.display_summary(ty)
+        if ds is not None:
+            shown = nf_simplify(CE.expand(nf_subst(ds, {"self": e})))
+            if shown != e:
+                return _canon_hole(("hole", shown, tr, "?"), CE, limit)
     k = e[0]
     if k == "lit" and isinstance(e[1], str):
         return [([("lit", e[1])], ())]
